@@ -85,6 +85,8 @@ func effect(c *ast.CallExpr) string {
 		return "truncate"
 	case "fp.Write":
 		return "write"
+	case "fp.Seek":
+		return "seek"
 	}
 	if strings.HasSuffix(fn, ".Close") || strings.HasSuffix(fn, ".CloseWithErrors") {
 		return "cf_close(" + strings.TrimSuffix(strings.TrimSuffix(fn, ".CloseWithErrors"), ".Close") + ")"
@@ -101,7 +103,24 @@ func effect(c *ast.CallExpr) string {
 	if strings.HasSuffix(fn, ".FileForUpdate") {
 		return ""
 	}
-	return ""
+	// calls without an effect on the files of a table (reviewed); ANY OTHER call becomes a token of its own, so a
+	// new helper that touches files (an in-place overwrite, a backup link, …) changes the regenerated list
+	if harmless[fn] || strings.HasPrefix(fn, "New") && strings.HasSuffix(fn, "Error") {
+		return ""
+	}
+	return "call(" + fn + ")"
+}
+
+var harmless = map[string]bool{
+	"VerifPoint": true, "file.VerifPoint": true, "fmt.Sprintf": true, "err.Error": true, "closeIsolatedHandler": true,
+	"append": true, "len": true, "make": true, "[]byte": true, "NewControlFile": true, "tx.LogNotice": true,
+	"tx.UncommittedViews.Unset": true, "tx.CachedViews.Get": true, "fileInfo.LineBreak.Value": true,
+	"fileInfo.IdentifiedPath": true, "fileInfo.ExportOptions": true, "ctx.Err": true, "cancel": true,
+	"LockFilePath": true, "RLockFilePath": true, "TempFilePath": true, "GetTimeoutContext": true,
+	"tx.quietForTemporaryViews": true, "tx.operationMutex.Unlock": true, "tx.operationMutex.Lock": true,
+	"tx.UnlockStdin": true, "tx.UncommittedViews.UncommittedTempViews": true, "tx.UncommittedViews.UncommittedFiles": true,
+	"tx.UncommittedViews.Clean": true, "tx.ReleaseResources": true, "strings.Join": true, "scope.StoreTemporaryTable": true,
+	"filepath.Ext": true, "ConvertContextError": true, "NewCompositeError": true,
 }
 
 // walk lists the effects of a statement list in source order; an `if` becomes if[cond]{…}else{…} markers,
